@@ -39,7 +39,7 @@ def one(patch):
     finally:
         shutil.rmtree(tmp, ignore_errors=True)
 k = sys.argv[1]
-patches = sorted(glob.glob(os.path.join(os.environ.get("SEED_ROOT", "/tmp/seed"), k, "SEED", "*.patch.diff")))
+patches = sorted(glob.glob(os.path.join(os.environ.get("SEED_ROOT", "/tmp/seed"), k, "SEED", os.environ.get("ONLY", "*") + ".patch.diff")))
 with ThreadPoolExecutor(max_workers=5) as ex:
     for patch, out in ex.map(one, patches):
         print(os.path.basename(patch), "->", "clean (no alarm)" if not out else "")
